@@ -446,7 +446,7 @@ var DelClasses = []string{
 	"valid/empty-leaf-zero", "valid/duplicate-then-zero",
 	"inv/empty-leaf-nonzero", "inv/duplicate-original", "inv/index-2^(D+1)", "inv/index-2^(D+1)+member", "inv/index-huge",
 	"inv/stale-paths", "inv/wrong-item", "inv/sibling-corrupt", "inv/post-is-pre", "inv/misdeclared-padding", "inv/padding-deletes",
-	"inv/post-random", "inv/post-short", "inv/wrong-pre",
+	"inv/post-random", "inv/post-short", "inv/wrong-pre", "inv/claims-empty-noop",
 }
 
 // members makes sure the tree has at least k occupied leaves and returns k distinct ones.
@@ -767,6 +767,33 @@ func (e Env) Deletion(r *rand.Rand, class string, depth, batch int) (c *Del, ok 
 			k2 := (k + 1) % batch
 			c.Indices[k2] = new(big.Int).Add(pow2(depth), new(big.Int).Mod(c.Indices[k2], pow2(depth)))
 		}
+		ok = true
+	case "inv/claims-empty-noop":
+		// a real slot presents the empty value for a leaf that is NOT empty, and the post-root leaves that leaf
+		// in place (the slot is a no-op): the batch "deletes" an index that stays in the tree
+		mem, found := e.members(r, t, batch)
+		if !found {
+			return c, false
+		}
+		k := r.Intn(batch)
+		w := t.Clone()
+		c.Pre = w.Root()
+		for i, j := range mem {
+			c.Indices = append(c.Indices, new(big.Int).SetUint64(j))
+			if i == k {
+				c.Items = append(c.Items, big.NewInt(0))
+				if r.Intn(2) == 0 {
+					c.Proofs = append(c.Proofs, w.Path(j)) // genuine path of the (non-empty) leaf
+				} else {
+					c.Proofs = append(c.Proofs, garbagePath())
+				}
+				continue // the tree is left as it is
+			}
+			c.Items = append(c.Items, w.Get(j))
+			c.Proofs = append(c.Proofs, w.Path(j))
+			w.Set(j, big.NewInt(0))
+		}
+		c.Post = w.Root()
 		ok = true
 	case "inv/post-random", "inv/post-short", "inv/wrong-pre":
 		mem, found := e.members(r, t, batch)
